@@ -187,7 +187,7 @@ Outcome run_files_ga(const Plan & plan, const RunCtx & ctx)
   for (const Op & op : plan.ops) if (op.k == "src") { method = op.arg(0); set = op.arg(1); via = op.arg(2); }
   bool pdf = method == 1;
   std::string valid = ga_file(SETS[(size_t)(set % 3)], pdf ? "tab_pdf.data" : "tab_ocdf.data");
-  if (pdf && set % 4 == 3) valid = read_real(std::string(getenv("BXSIM_REPO") ? getenv("BXSIM_REPO") : "/repo") + "/resources/data/dbd_gA/Test/g0/tab_pdf.data");
+  if (pdf && set % 4 == 3) valid = read_real(repo_dir() + "/resources/data/dbd_gA/Test/g0/tab_pdf.data");
   std::string bad = damage(valid, plan, out);
   tr.adds(bad);
   bool through_generator = !pdf && (via % 2 == 1);
@@ -322,8 +322,11 @@ Outcome run_files_lists(const Plan & plan, const RunCtx & ctx)
 {
   Outcome out; Trace tr;
   const bool check = ctx.prop == "C15";
-  char tmpl[] = "/verif/build/tmp/lists-XXXXXX";
-  int r0 = system("mkdir -p /verif/build/tmp"); (void)r0;
+  std::string tdir = build_dir() + "/tmp";
+  int r0 = system(("mkdir -p '" + tdir + "'").c_str()); (void)r0;
+  std::string tpath = tdir + "/lists-XXXXXX";
+  std::vector<char> tbuf(tpath.begin(), tpath.end()); tbuf.push_back(0);
+  char * tmpl = tbuf.data();
   int fd = mkstemp(tmpl);
   if (fd < 0) { out.verdict = "harness-error"; out.detail = "mkstemp"; return out; }
   std::string t = plan.text();
@@ -452,7 +455,7 @@ int cmd_lists_child(const std::string & planfile)
   i64 which = 0;
   for (const Op & op : plan.ops) if (op.k == "src") which = op.arg(1);
   const char * names[3] = {"dbd_isotopes.lis", "background_isotopes.lis", "dbd_modes.lis"};
-  std::string repo = getenv("BXSIM_REPO") ? getenv("BXSIM_REPO") : "/repo";
+  std::string repo = repo_dir();
   fs::reset();
   Outcome dummy;
   for (int i = 0; i < 3; i++) {
